@@ -25,16 +25,22 @@ func UnaryTimeoutInterceptor(timeout time.Duration) grpc.UnaryServerInterceptor 
 		// 创建缓冲大小为1的通道以避免协程泄露
 		panicChan := make(chan interface{}, 1)
 		go func() {
+			// 用完成标记判断是否发生了 panic（panic(nil) 时 recover() 返回 nil）
+			finished := false
 			defer func() {
-				if p := recover(); p != nil {
-					// 挂载调用堆栈以防在不同协程中丢失
-					panicChan <- fmt.Sprintf("%+v\n\n%s", p, strings.TrimSpace(string(debug.Stack())))
+				if finished {
+					return
 				}
+
+				p := recover()
+				// 挂载调用堆栈以防在不同协程中丢失
+				panicChan <- fmt.Sprintf("%+v\n\n%s", p, strings.TrimSpace(string(debug.Stack())))
 			}()
 
 			lock.Lock()
 			defer lock.Unlock()
 			resp, err = handler(ctx, req)
+			finished = true
 			close(done)
 		}()
 
